@@ -400,6 +400,12 @@ def t_verify(ctx, shard, nshards, n, nmax):
             ex.append(build((suite, fast, [k, k + 1, 500, k + 3, 1000][:nn], [k, k + 2, 500 + k, k + 5, k + 6][:nn],
                              pert, 100 + k, 7 + k, 0)))
     # zero-sum FastAggregateVerify with the honest (identity) aggregate
+    for sname in sc.SUITES:
+        # no signer at all, identity aggregate: the empty product of pairings equals one - must be refused
+        ex.append({"suite": sname, "entry": "AggregateVerify", "pks": [], "dlogs": [], "msgs": [],
+                   "agg": hx(B.signature_bytes(None)), "pert": "empty"})
+    ex.append({"suite": "pop", "entry": "FastAggregateVerify", "pks": [], "dlogs": [], "msgs": [hx(b"m")],
+               "agg": hx(B.signature_bytes(None)), "pert": "empty"})
     ex.append(build(("pop", True, [4, 1000], [3, 3], "none", 1, 1, 0)))
     ex.append(build(("pop", False, [4, 1000], [3, 3], "none", 10, 1, 0)))          # honest aggregate = identity: must verify
     ex.append(build(("pop", False, [4, 1000, 7, 1000], [3, 3, 3, 3], "permute", 20, 1, 0)))
